@@ -109,6 +109,12 @@ func c11Desc(p ipt, ring []ipt) map[string]any {
 
 // c11CheckRing checks one ring/point pair in its plain form and, when variants is
 // set, reversed, rotated, vertex-doubled and with extra ordinates.
+// a ring buffer that lives as long as the worker process
+var (
+	c11Buf   [4096]float64
+	c11Calls int
+)
+
 func c11CheckRing(c *fw.Ctx, p ipt, ring []ipt, variants bool) {
 	c.SetInput(c11Desc(p, ring))
 	want, tv, hr := iLocate(p, ring)
@@ -140,6 +146,14 @@ func c11CheckRing(c *fw.Ctx, p ipt, ring []ipt, variants bool) {
 	check := func(how string, layout geom.Layout, flat []float64, pc geom.Coord) bool {
 		var got location.Type
 		var in bool
+		// runs of 64 rings are handed over in one buffer that the caller keeps and
+		// refills: the same memory, the same length, other contents
+		c11Calls++
+		if (c11Calls/64)%2 == 0 && len(flat) <= len(c11Buf) {
+			copy(c11Buf[:], flat)
+			flat = c11Buf[:len(flat):len(flat)]
+			c.Count("rings_passed_in_a_reused_buffer")
+		}
 		if c.Guard("panic", func() {
 			got = xy.LocatePointInRing(layout, pc, flat)
 			in = xy.IsPointInRing(layout, pc, flat)
@@ -360,11 +374,48 @@ func c11OnLine(c *fw.Ctx, idx int) {
 			line[i] = line[i-1]
 		}
 	}
+	// one case in six: floats that are *exactly* collinear although their
+	// coordinates live in different binades - every vertex and the query point lie
+	// on y = k*x with k of few bits and x = m*2^e, m below 2^24, so k*x is exact
+	// while the coordinate differences the predicate forms are not
+	exactLine := r.Chance(1, 6)
+	var kf float64
+	xe := func() float64 {
+		v := math.Ldexp(float64(r.Range(1, 1<<24-1)), r.Range(-34, 6))
+		if r.Chance(1, 3) {
+			v = -v
+		}
+		return v
+	}
+	if exactLine {
+		useFloat = true
+		kf = []float64{1, 2, 3, 0.5, -1, 5, -3, 0.25, 1.5, -0.75}[r.Intn(10)]
+		for i := range line {
+			x := xe()
+			line[i] = [2]float64{x, kf * x}
+		}
+	}
 	// the query point
 	var p [2]float64
 	i := 1 + r.Intn(n-1)
 	a, b := line[i-1], line[i]
-	switch r.Intn(5) {
+	sw := r.Intn(5)
+	if exactLine {
+		sw = 5
+		x := xe()
+		if r.Bool() {
+			// between the two ends of one segment
+			x = a[0] + (b[0]-a[0])*r.Float01()
+			x = math.Ldexp(math.Round(math.Ldexp(x, 30)), -30)
+		}
+		p = [2]float64{x, kf * x}
+		if r.Chance(1, 4) {
+			p[1] = gen.NextAfterN(p[1], []int{-1, 1}[r.Intn(2)])
+		}
+		c.Count("online_exactly_collinear_floats")
+	}
+	switch sw {
+	case 5:
 	case 0:
 		p = a
 	case 1, 2:
